@@ -238,6 +238,10 @@ package lazy
 //@   after call SearchReverseLimited#*: ghost again = true
 //@   after call SearchReverseLimited#*: ghost rec = lastcall
 //@   ensures cleared ==> again && result == rec
+// a scan that stops at the guard with the automaton still alive cannot know the leftmost start: it must decline (-2)
+//@   ghost exhausted = false
+//@   loop 1: exit ghost exhausted = at < ite(minStart > start, minStart, start)
+//@   ensures exhausted && minStart > start ==> result == -2
 //@   loop 1: invariant (lowerBound - 1 <= at || at == end - 1) && at < end && cache.stride >= 0 && end <= len(haystack) && 0 <= start && start <= lowerBound && ftLen == len(ft) && -1 <= lastMatch
 //@   loop 1: invariant lowerBound == ite(minStart > start, minStart, start)
 
